@@ -191,7 +191,7 @@ func (c *Ctx) e4Service() bool {
 			pt := newMsg.Params[0].Type()
 			// a frame taken from the stream is decoded into a message object (and header) allocated for that frame:
 			// an object kept across frames is rewritten by the next Decode while handlers and the writer still hold it
-			if site.Parent() == unpack {
+			if fn == unpack { // any call depth below unpack (the decode may sit in a helper)
 				okF, dF := false, "the decoded message handed to newTerminalMessage is not a pointer the analysis can identify"
 				if jp, isP := jt.(*absint.Ptr); isP && jp.Obj != nil {
 					okF, dF = jp.Obj.Fresh, ""
@@ -251,7 +251,7 @@ func (c *Ctx) e4Service() bool {
 			}
 			R.Add("E4.fresh-message", k, agg[k].pos, st, agg[k].d)
 		}
-		R.Require("E4.fresh-message", 2, "")
+		R.Require("E4.fresh-message", 1, "")
 	}
 	keys := make([]string, 0, len(okKeys))
 	for k := range okKeys {
